@@ -153,7 +153,12 @@ Store(v, w) == [i \in 1..w |-> (v \div Pow256(i - 1)) % 256]
 (* character code -> byte for the encodings, over the unambiguous ASCII subset:
    space..'?' (32..63), '@' (64), 'a'..'z' (97..122), '[' (91), ']' (93) *)
 TextDomain == (32..64) \cup (97..122) \cup {91, 93}
-Petscii(c) == IF c >= 97 /\ c <= 122 THEN c - 32 ELSE c
+(* the Commodore encodings also have the pound sign and the two arrows (U+00A3, U+2191, U+2190) at $5C, $5E, $5F *)
+CbmOnly == {163, 8593, 8592}
+DomainOf(enc) == IF enc \in {"petscii", "petscreen"} THEN TextDomain \cup CbmOnly ELSE TextDomain
+Petscii(c) == CASE c >= 97 /\ c <= 122 -> c - 32
+                [] c = 163 -> 92 [] c = 8593 -> 94 [] c = 8592 -> 95
+                [] OTHER -> c
 Screen(p) == IF p >= 64 /\ p <= 95 THEN p - 64 ELSE p
 TextBytes(enc, s) ==
   CASE enc \in {"ascii", ""} -> s
